@@ -75,6 +75,9 @@ func (g *G) Addr() net.IP {
 		for i := 8; i < 16; i++ {
 			b[i] = byte(g.R.UintN(256))
 		}
+		if g.R.IntN(2) == 0 { // interface identifier made from a MAC address (modified EUI-64)
+			b[11], b[12] = 0xff, 0xfe
+		}
 	case 3: // multicast
 		b[0], b[1] = 0xff, 0x02
 		b[15] = byte(g.R.UintN(256))
@@ -141,6 +144,15 @@ func (g *G) Name() string {
 
 func (g *G) names(min int) []string {
 	n := min + g.R.IntN(4)
+	if n >= 2 && g.R.IntN(4) == 0 {
+		// what sites really configure: a domain, its sub-domains, repeated parents (suffixes shared over several levels)
+		base := g.Name()
+		if base != "" && len(base) < 200 {
+			all := []string{base, "corp." + base, "eng.corp." + base, base, "eng.corp." + base, "lab.eng.corp." + base}
+			g.R.Shuffle(len(all), func(i, j int) { all[i], all[j] = all[j], all[i] })
+			return all[:n]
+		}
+	}
 	out := make([]string, 0, n)
 	for i := 0; i < n; i++ {
 		out = append(out, g.Name())
